@@ -350,6 +350,12 @@ func c18NewFb(spec ttyCons) (*c18Fb, error) {
 	d.offY = int(spec.LogoH)
 	if cw, ch := d.cons.Dimensions(console.Characters); int(cw) != d.w || int(ch) != d.h || int(d.cons.VerifOffsetY()) != d.offY {
 		g.Free()
+		if (int(cw) > d.w || int(ch) > d.h) && int(d.cons.VerifOffsetY()) == d.offY {
+			// more cells than fit into the pixels: not a harness matter, the terminal
+			// would be told to draw where the screen has no cells
+			return nil, c18GridError(fmt.Sprintf("the framebuffer console (%dx%d px, pitch %d, font %dx%d, logo %d scanlines) reports a grid of %dx%d cells, but only %dx%d cells fit: a terminal attached to it draws outside the grid",
+				d.width, d.height, d.pitch, d.gw, d.gh, d.offY, cw, ch, d.w, d.h))
+		}
 		return nil, fmt.Errorf("VesaFbConsole %+v reports %dx%d characters below scanline %d, built as %dx%d below %d", spec, cw, ch, d.cons.VerifOffsetY(), d.w, d.h, d.offY)
 	}
 	// set-up may only have drawn the logo
@@ -568,6 +574,11 @@ type c18Stats struct {
 
 // c18Run returns the violated oracle (if any), what the history exercised, and
 // a harness error (set-up trouble, not a property violation).
+// c18GridError: the console under test claims more cells than its pixels hold.
+type c18GridError string
+
+func (e c18GridError) Error() string { return string(e) }
+
 func c18Run(c ttyCase) (fail *vlib.Failure, st c18Stats, herr error) {
 	defer vlib.Guard("C18", c, nil)()
 	var devs []c18Dev
@@ -577,6 +588,9 @@ func c18Run(c ttyCase) (fail *vlib.Failure, st c18Stats, herr error) {
 		}
 	}()
 	dev, err := c18NewDev(c.Cons)
+	if ge, ok := err.(c18GridError); ok {
+		return vlib.Failf("%s", string(ge)), st, nil
+	}
 	if err != nil {
 		return nil, st, err
 	}
